@@ -238,6 +238,7 @@ let gen (line : string) : string =
         tokens, socket kinds and the service a worker calls for a token come from the extracted Model/Builder.v
      ops: c<tok> a client connects (ids 1,2,..), f<cid> client cid closes (its service call ends), P / R pause / resume,
           K<tok> a client connects and the service call for it panics (the worker dies; ServerInner restarts it),
+          J<t1>:<t2> the same, and a client connects to t2 while the dead worker's services are still being dropped,
           E<tok> a client connects while accept() fails with EMFILE (one-shot), +<ms> time passes
    After every op the model settles: Turn, every worker picks up its queue, repeated; printed per op:
      <op>=<cid>@<call>w<worker idx>,...  (connections whose service call started during the op)  /a<in progress per worker index, '.'-separated> *)
@@ -301,6 +302,23 @@ let bld_step lz call_of (st, cid) (o : string) : (state * int) * string =
         let gn = nat_of_int !g in
         let st2 = step lz (step lz st1 (E (Finish (gn, c)))) (E (Kill gn)) in
         (List.fold_left (fun s cn -> if cn.c_id = c then s else step lz s (E (Finish (gn, cn.c_id)))) st2 wk.w_picked, cid + 1)
+    | 'J' ->
+        (* K<t1>, and a second client connects to t2 while the dead worker is still being torn down (its services' destructors
+           run): the connection queue closed first, so the second connection is re-routed like any later one *)
+        let (t1, t2) = match String.split_on_char ':' (rest ()) with
+          | [a; b] -> (nat_of_int (int_of_string a), nat_of_int (int_of_string b)) | _ -> failwith ("bad op " ^ o) in
+        let c = n_of_int (cid + 1) in
+        poisoned := (cid + 1) :: !poisoned;
+        let st1 = bld_settle lz (step lz st (E (Connect (t1, c)))) in
+        let g = ref (-1) in
+        List.iteri (fun i wk -> if List.exists (fun cn -> cn.c_id = c) wk.w_picked then g := i) st1.ws;
+        if !g < 0 then failwith ("poisoned connection was not dispatched: " ^ o);
+        let wk = List.nth st1.ws !g in
+        panicked := [int_of_n wk.w_idx];
+        let gn = nat_of_int !g in
+        let st2 = step lz (step lz st1 (E (Finish (gn, c)))) (E (Kill gn)) in
+        let st3 = List.fold_left (fun s cn -> if cn.c_id = c then s else step lz s (E (Finish (gn, cn.c_id)))) st2 wk.w_picked in
+        (step lz st3 (E (Connect (t2, n_of_int (cid + 2)))), cid + 2)
     | 'f' -> let c = n_of_int (int_of_string (rest ())) in
         let g = ref (-1) in
         List.iteri (fun i wk -> if List.exists (fun cn -> cn.c_id = c) wk.w_picked then g := i) st.ws;
@@ -386,7 +404,7 @@ let bldgen (line : string) : string =
      | `F -> emit (Printf.sprintf "f%d" (pick_from picked))
      | `P -> emit "P" | `R -> emit "R"
      | `E -> emit (Printf.sprintf "E%d" (rand nl))
-     | `K -> emit (Printf.sprintf "K%d" (rand nl))
+     | `K -> if rand 3 = 0 then emit (Printf.sprintf "J%d:%d" (rand nl) (rand nl)) else emit (Printf.sprintf "K%d" (rand nl))
      | `T -> emit "+600")
   done;
   let st = fst !acc in
